@@ -92,7 +92,9 @@ NAT_METHODS = ["len", "iter", "is_alpha", "is_digit", "is_hexdigit", "count_char
                "clear", "keys", "values", "items", "next", "map", "filter", "collect", "derives"]
 NAT_ARGS = ["0", "1", "-1", "2", "3", "100", "0.5", "-0.0", "1 / 0", "0 / 0", "nil", '""', '"a"', '"abc"', '"abcdef"', '","', '"bc"', "[]", "[1]", "(1,)",
             "true", "0..2", "2..1", "-1..1", "1..100", "|x| { return x; }", "Num", "String"]
-NAT_OPS = ["{r}[{a}]", "{r}[{a}..{b}]", "{r} + {a}", "{r} == {a}", "{r} < {a}", "-{r}", "!{r}", '"${{{r}}}/${{{a}}}"', "String.from({r})",
+NAT_OPS = ["{r}.find({a}, {n})", "{r}.find({a}, {n})", "{r}.replace({a}, {b})", "{r}.split({a})", "{r}.starts_with({a})", "{r}.ends_with({a})",
+           "{r}.char_byte_index({n})", "{r}.get({a})", "{r}.insert({a}, {b})", "{r}.has_key({a})", "{r}.remove({a})", "{r}.push({a})",
+           "{r}.iter().map({a}).collect()", "{r}.derives({a})", "{r}[{n}]", "{r}[{n}..{a}]", "{r}[{a}]", "{r}[{a}..{b}]", "{r} + {a}", "{r} == {a}", "{r} < {a}", "-{r}", "!{r}", '"${{{r}}}/${{{a}}}"', "String.from({r})",
            "String.from_ascii({a})", "String.from_utf8([{a}, {b}])", "String.from_code_points([{a}])", "type({r})", "({r}, {a})[{b}]"]
 
 
@@ -101,10 +103,10 @@ def nat_program(seed):
     out = ["fn show(v) { if type(v) == Num || type(v) == String || type(v) == Bool || v == nil { return v; } return type(v); }"]
     for i in range(rng.range(20, 60)):
         r = rng.choice(NAT_RECEIVERS)
-        if rng.chance(0.7):
+        if rng.chance(0.4):
             expr = "%s.%s(%s)" % (r, rng.choice(NAT_METHODS), ", ".join(rng.choice(NAT_ARGS) for _ in range(rng.weighted([(3, 0), (5, 1), (3, 2), (1, 3)]))))
         else:
-            expr = rng.choice(NAT_OPS).format(r=r, a=rng.choice(NAT_ARGS), b=rng.choice(NAT_ARGS))
+            expr = rng.choice(NAT_OPS).format(r=r, a=rng.choice(NAT_ARGS), b=rng.choice(NAT_ARGS), n=rng.choice(["0", "1", "2", "3", "-1", "100", "0.5"]))
         out.append('try { print(("ev", %d, show(%s))); } catch e%d { print(("ev", %d, "error", type(e%d))); }' % (i, expr, i, i, i))
     return "\n".join(out) + "\n"
 
